@@ -5,3 +5,4 @@ pub mod l3;
 pub mod l4;
 pub mod props;
 pub mod rt;
+pub mod sig;
